@@ -306,6 +306,9 @@ class Engine:
         self.max_steps = max_steps
         self.max_depth = max_depth
         # in the debug fact base optional overflow Asserts panic; in release semantics they wrap
+        self.lazy_enums = False
+        self.group_switch = False
+        self.sym_select = False
         self.overflow_panics = facts.config.get("overflow_checks", True) if overflow_panics is None else overflow_panics
         self.nfid = 0
         self.ncell = 0
@@ -476,6 +479,12 @@ class Engine:
         return max(lo, l2), min(hi, h2)
 
     def _feasible_with(self, st, alt):
+        # an opaque predicate already decided on this path keeps its value
+        for a in alt:
+            if a[0] == "opq":
+                for term, sense in st.opq:
+                    if sense != a[2] and term == a[1]:
+                        return False
         lins = [a for a in alt if a[0] != "opq"]
         if not lins:
             return True
@@ -1044,6 +1053,15 @@ class Engine:
             if hi != INF and d > hi:
                 d -= (hi - lo + 1)
             return [(st, Int(Lin.const(d), dest_tid))]
+        if isinstance(v, SymEnum) and self.lazy_enums:
+            # field-less enum with contiguous discriminants: the discriminant is an integer atom, decided by later comparisons
+            t = self.types[v.tid]
+            ds = [var.get("discr", i) for i, var in enumerate(t["variants"])]
+            lo, hi = self.int_range(dest_tid)
+            ds = [d - (hi - lo + 1) if hi != INF and d > hi else d for d in ds]
+            if all(var["nfields"] == 0 for var in t["variants"]) and sorted(ds) == list(range(min(ds), max(ds) + 1)) and len(ds) > 2:
+                a = self.atom("discr(%s)" % v.name, min(ds), max(ds))
+                return [(st, Int(Lin.atom(a), dest_tid))]
         if isinstance(v, SymEnum):
             t = self.types[v.tid]
             out = []
@@ -1491,7 +1509,30 @@ class Engine:
                 return [self.goto(st, t["else"])]
             out = []
             other = st.clone()
-            for v, bb in vals:
+            if self.group_switch:
+                # one successor state per target block: hull of its values minus the holes
+                groups = {}
+                for v, bb in vals:
+                    groups.setdefault(bb, []).append(v)
+                for bb, vs in groups.items():
+                    vs.sort()
+                    cnd = c_and(c_lin("ge", x.lin - vs[0]), c_lin("le", x.lin - vs[-1]))
+                    for h in range(vs[0], vs[-1] + 1):
+                        if h not in vs:
+                            cnd = c_and(cnd, c_lin("ne", x.lin - h))
+                    for s2 in self.assume(st.clone(), cnd, label=(fr.fn["key"], fr.bb, vs[0])):
+                        s2.frames[-1].dec = s2.frames[-1].dec + ((bb0, bb),)
+                        out.append(self.goto(s2, bb))
+                vals_iter = []
+                for v, bb in vals:
+                    ss = self.assume(other, c_lin("ne", x.lin - v))
+                    if not ss:
+                        other = None
+                        break
+                    other = ss[0]
+            else:
+                vals_iter = vals
+            for v, bb in vals_iter:
                 for s2 in self.assume(st.clone(), c_lin("eq", x.lin - v), label=(fr.fn["key"], fr.bb, v)):
                     s2.frames[-1].dec = s2.frames[-1].dec + ((bb0, bb),)
                     out.append(self.goto(s2, bb))
@@ -1579,6 +1620,15 @@ class Engine:
         return [st]
 
     # ---------------------------------------------------------------- calls
+    def _untuple(self, callee, tup, n):
+        """Closure bodies take their arguments spread; the Fn* call passes them as one tuple."""
+        if n != 2:
+            return True
+        if not isinstance(tup, Struct) or len(tup.fs) != 1:
+            return False
+        # one declared parameter: spread unless that parameter itself has the tuple's type
+        return tup.tid is None or callee["locals"][2]["ty"] != tup.tid
+
     def call(self, st, fr, t):
         c = t["f"]
         args = [self.operand(st, fr, a) for a in t["args"]]
@@ -1599,6 +1649,8 @@ class Engine:
             m = self.models.get("intrinsic::" + c["intrinsic"])
         if m is not None:
             res = m(self, st, c, args, dest_tid, t)
+            if (res is NotImplemented or res is None) and m is not self.models.get(path) and self.models.get(path) is not None:
+                res = self.models[path](self, st, c, args, dest_tid, t)  # a declining hook leaves the call to the std model
             if res is not NotImplemented and res is not None:
                 self.stats["calls_modelled"] += 1
                 return self.finish_call(res, t)
@@ -1628,7 +1680,7 @@ class Engine:
                 self.nfid += 1
                 nf = Frame(callee, self.nfid, dest=dest, ret_bb=t["t"])
                 n = callee["arg_count"]
-                if callee.get("def_kind") == "Closure" and len(args) == 2 and n != 2:
+                if callee.get("def_kind") == "Closure" and len(args) == 2 and self._untuple(callee, args[1], n):
                     tup = args[1]
                     if isinstance(tup, Struct):
                         args = [args[0]] + list(tup.fs)
@@ -1640,7 +1692,7 @@ class Engine:
                     key = ("cell", self.ncell, "closure-env")
                     st.store[key] = args[0]
                     args = [Ref(key=key)] + args[1:]
-                    if len(args) == 2 and isinstance(args[1], Struct) and n != 2:
+                    if len(args) == 2 and isinstance(args[1], Struct) and self._untuple(callee, args[1], n):
                         args = [args[0]] + list(args[1].fs)
                 st.frames.append(nf)
                 for i, a in enumerate(args[:n]):
